@@ -400,7 +400,7 @@ def run_check(pid, tier, seed, prop, gen_needed, tie, search=None, trusted=(), a
             broken.append({'proof_check': stats.get('log_tail', '') or 'Print Assumptions did not report a closed proof for every theorem'})
         found = [f for f in (search() if search else []) if not (isinstance(f, dict) and f.get('level') == 'model')]
         what = {'property': pid, 'kind': 'proof-obligation', 'broken': broken}
-        name = (fails[0][2] if fails[0][2] != '?' else '%s (%s)' % (fails[0][0], str(fails[0][3])[:120])) if fails else (t.get('msg') or str(broken[0]))[:160]
+        name = (fails[0][2] if fails[0][2] != '?' else '%s (%s)' % (fails[0][0], str(fails[0][3])[:120].replace(chr(10), ' '))) if fails else (t.get('msg') or str(broken[0]))[:160]
         if found:
             what['failures'] = found[:20]
             res.violation('input', what, '%s: %s no longer checks; failing input: %s' % (pid, name, found[0].get('what', found[0])))
